@@ -99,6 +99,10 @@ def ident_parts(text):
     return parts
 
 
+# escape units (so that runs of backslashes next to quotes occur with every parity) and characters that text clean-up code likes to touch
+UNITS = ['\\\\', "\\'", "''", '\\"', 'a', '"', '\\']
+ODD_CHARS = ['\u00a0', '\t', '\r', '\u2028', '\u200b', '\u3000', '\ufeff', '\x0b', '\x0c', '\u00ad', '\u202e']
+
 ID_FORMS = ['abc', 'aBc', 'ABC', '`abc`', '`select`', '`a b`', '`a.b`', '1a', '`1a`', '`é`', '_x', 'a$b', '`group by`', '`A B`', '`a-b`', '`1`']
 DQ_FORMS = ['"abc"', '"a.b"', '"a b"', '"select"', '"A.b.C"']   # double-quoted parts (where a dialect reads them as names)
 
@@ -133,7 +137,23 @@ class CHECK(Check):
                         out.append((d, 'str', q, body, 'select'))
                         if n <= 2 or self.tier == 'thorough':
                             out.append((d, 'str', q, body, 'where'))
-            for num in ['0', '7', '007', '12', '1.0', '0.50', '1.50', '123456789012345678901234567890', '00', '3.14159', '10.0', '1e5'] + [str(i) for i in range(20, 40)]:
+            seen_bodies = set()
+            for n in range(1, 5):
+                for tup in itertools.product(UNITS, repeat=n):
+                    body = ''.join(tup)
+                    if body in seen_bodies:
+                        continue
+                    seen_bodies.add(body)
+                    for q in ("'", '"'):
+                        out.append((d, 'str', q, body, 'select'))
+            for ch in ODD_CHARS:
+                for body in (ch, 'a' + ch + 'b', ch + 'a', 'a' + ch):
+                    for q in ("'", '"'):
+                        out.append((d, 'str', q, body, 'select'))
+                        out.append((d, 'str', q, body, 'where'))
+                    out.append((d, 'ident', None, '`' + body + '`', 'column'))
+                    out.append((d, 'ident', None, 't.`' + body + '`', 'column'))
+            for num in ['0', '7', '007', '12', '1.0', '0.50', '1.50', '0.00001', '0.0000001', '100000000000000000000.0', '123456789012345678901234567890', '00', '3.14159', '10.0', '1e5'] + [str(i) for i in range(20, 40)]:
                 for pos in ('select', 'where', 'neg', 'limit'):
                     out.append((d, 'num', None, num, pos))
             forms = ID_FORMS
@@ -154,13 +174,18 @@ class CHECK(Check):
         for n in range(0, L + 1):
             for tup in itertools.product(ALPHA, repeat=n):
                 vals.append(''.join(tup))
+        for ch in ODD_CHARS:
+            for v in (ch, 'a' + ch + 'b'):
+                for d in gsx.DIALECTS:
+                    out.append((d, 'enc_const', None, v, None))
+                    out.append((d, 'enc_ident', None, ['t', 'a' + ch + 'b'], None))
         for v in vals:
             out.append(('mindsdb', 'enc_const', None, v, None))
         for v in vals:
             if not any(c in v for c in '\'"\\'):
                 out.append(('mysql', 'enc_const', None, v, None))
                 out.append(('sqlite', 'enc_const', None, v, None))
-        for v in [0, 7, -3, 10 ** 30, 1.5, 0.5, -2.25, True, False, None]:
+        for v in [0, 7, -3, 10 ** 30, 1.5, 0.5, -2.25, True, False, None, 52.5200066, 3.14159265358979, 0.1, 100.0, 123456.789, 1e-05, 1e-07, 1e+20, 2.5e-10, 1.5e+300]:
             for d in gsx.DIALECTS:
                 out.append((d, 'enc_num', None, v, None))
         part_vals = ['abc', 'aBc', 'select', 'a b', 'a.b', '1a', 'é', 'group by', 'primary_key', 'x-y', '1', 'from', 'order', 'KEY', 'knowledge_base', 'nulls first']
